@@ -12,14 +12,19 @@
       on the homogenised system tests the norms 3, 0 (first phase) and 1 (second phase), x = (0, 1/2);
     * over ℚ (`Ex.sqQ`, kernel evaluation): the Cholesky solver on the homogenised system.
   `Ex.pCV` (ℝ): the same covariance, A = [[12,16],[15,20],[12,16]] (rank 1, kernel (4,−3)),
-    `A_dot = [[6,8],[3,4],[6,8]]`, S = {1}: for the svd solver (all square roots the Golub–Reinsch
-    iteration takes on this system are rational).
+    `A_dot = [[6,8],[3,4],[6,8]]`, S = {1}: for the svd solver.  Over ℝ: homogenisation, weight
+    matrix, the certificate `SvdCert` of the explicit factors `Ex.dCV` at the model's tolerance
+    `Svd.wTol`, the post-decomposition answer x = (0, 1/8); `pCV_hc`, `pCV_adj_svd` are stated GIVEN
+    `Svd.decompose 3 2 A_dot = .ok dCV` over ℝ — the one evaluation that is NOT done over ℝ (the
+    transliterated Golub–Reinsch `do` block is too large for `simp`); `dCV_decompose_rat` evaluates the
+    same run by the kernel over ℚ with a square root exact on the four values it takes roots of.
 -/
 import Gama.Lemmas.Ls.ComposeAdj
 import Gama.Lemmas.Ls.GsoReal
 import Gama.Lemmas.Ls.AdjCov
 import Gama.Lemmas.Ls.AdjExample
 import Gama.Lemmas.Ls.CholSingular
+import Gama.Lemmas.Ls.SvdProps
 import Mathlib.Tactic.NormNum.RealSqrt
 import Mathlib.Tactic.FinCases
 
@@ -256,6 +261,192 @@ theorem pCSQ_adj_chol : ∃ a, adjSolve .chol (pCS ℚ) = .ok a ∧ a.defect = 1
   exact ⟨a, h1, h2.1, h2.2.1, h2.2.2.1, h2.2.2.2⟩
 
 end rat
+
+/-! ### over ℝ with `Real.sqrt`: `Adj` + svd -/
+
+section svd
+open Gama.Ls.Svd
+attribute [local instance] sqrtFnOfSqrtField
+attribute [local instance 2000] scalarOfField
+
+/-- correlated block, rank-1 design matrix with kernel (4,−3), subset regularisation -/
+noncomputable def pCV : Problem ℝ :=
+  { m := 3, n := 2
+    rows := #[#[(1, 12), (2, 16)], #[(1, 15), (2, 20)], #[(1, 12), (2, 16)]]
+    cov := #[⟨2, 1, #[4, 2, 10]⟩, ⟨1, 0, #[4]⟩]
+    rhs := #[1, 2, 3]
+    reg := .subset [1] }
+
+/-- the weight matrix of `pCV` -/
+noncomputable def PCV : Matrix (Fin pCV.m) (Fin pCV.m) ℝ :=
+  (!![5/18, -1/18, 0; -1/18, 1/9, 0; 0, 0, 1/4] : Matrix (Fin 3) (Fin 3) ℝ)
+
+set_option maxRecDepth 8000 in
+theorem pCV_homogenise :
+    homogenise pCV = .ok (#[#[6, 8], #[3, 4], #[6, 8]], #[1/2, 1/2, 3/2]) := by
+  unfold homogenise
+  have hf : factorsL pCV.cov.toList = .ok [#[#[2, 0], #[1, 3]], #[#[2]]] := pCS_factors
+  simp only [hf]
+  simp [pCV, Problem.dense, locate, forwardSubst, sweep, subFrom, Dn.mmk, Dn.vmk, Dn.mget, Dn.vget, Array.ofFn_succ,
+    List.range, List.range.loop, List.range']
+  norm_num
+
+/-- the homogenised problem `Adj` hands to the solver -/
+noncomputable def pCVdot : Problem ℝ :=
+  dotProblem pCV #[#[6, 8], #[3, 4], #[6, 8]] #[1/2, 1/2, 3/2] (regOf pCV.reg)
+
+theorem pCVdot_dense : pCVdot.dense = #[#[6, 8], #[3, 4], #[6, 8]] := by
+  simp [pCVdot, dotProblem, Problem.dense, pCV, Dn.mget, Array.ofFn_succ, List.range, List.range.loop]
+  refine ⟨?_, ?_, ?_⟩ <;> rfl
+
+theorem pCV_rows : RowsOK pCV := by
+  intro i hi
+  have : i = 0 ∨ i = 1 ∨ i = 2 := by have : i < 3 := hi; omega
+  rcases this with rfl | rfl | rfl <;> simp [pCV, Array.getD]
+
+theorem pCV_Cadj : (Cadj pCV : Matrix (Fin 3) (Fin 3) ℝ) = !![4, 2, 0; 2, 10, 0; 0, 0, 4] := by
+  ext i j
+  show covF pCV i.val j.val = _
+  fin_cases i <;> fin_cases j <;>
+    simp [covF, dimsOf, locate, pCV, blockDense, rowOff, Dn.sget, Dn.mmk, Dn.mget, Dn.vget, List.range, List.range.loop]
+
+theorem pCV_weight : pCV.C * PCV = 1 := by
+  rw [← Cadj_eq_C pCV (by decide)]
+  show (Cadj pCV * PCV : Matrix (Fin 3) (Fin 3) ℝ) = 1
+  rw [pCV_Cadj]
+  exact inv3
+
+/-- the factors `SVD::svd()` (the transliteration `Svd.decompose`) returns on the homogenised
+    system in exact arithmetic — see `dCV_decompose_rat` -/
+noncomputable def dCV : Svd.Dec ℝ :=
+  { U := #[#[1/3, -2/3], #[-14/15, -1/3], #[2/15, -2/3]], W := #[0, 15], V := #[#[4/5, -3/5], #[-3/5, -4/5]] }
+
+open Matrix in
+/-- `dCV` is a certified factorisation of the homogenised design matrix at the model's own
+    tolerance `W_tol`: `A_dot = U diag(0,15) Vᵀ`, `VᵀV = 1`, the column of `U` for the singular value
+    15 is a unit vector, singular values `0` and `15 > W_tol·15` -/
+theorem dCV_cert : Svd.SvdCert Real.sqrt (Svd.wTol : ℝ) 3 2 (#[#[6, 8], #[3, 4], #[6, 8]] : DMat ℝ) dCV := by
+  have hA : toMatrix 3 2 (#[#[6, 8], #[3, 4], #[6, 8]] : DMat ℝ) = !![6, 8; 3, 4; 6, 8] := by
+    ext i j; fin_cases i <;> fin_cases j <;> rfl
+  have hU : toMatrix 3 2 dCV.U = !![1/3, -2/3; -14/15, -1/3; 2/15, -2/3] := by
+    ext i j; fin_cases i <;> fin_cases j <;> rfl
+  have hV : toMatrix 2 2 dCV.V = !![4/5, -3/5; -3/5, -4/5] := by
+    ext i j; fin_cases i <;> fin_cases j <;> rfl
+  have hW : toVec 2 dCV.W = ![0, 15] := by
+    funext i; fin_cases i <;> rfl
+  refine ⟨?_, ?_, ?_, ?_⟩
+  · rw [hA, hU, hV, hW]
+    ext i j
+    fin_cases i <;> fin_cases j <;>
+      simp [Matrix.mul_apply, Fin.sum_univ_two, Matrix.diagonal_apply, Matrix.transpose_apply,
+        Matrix.vecMul, dotProduct] <;> norm_num
+  · rw [hV]
+    ext i j
+    fin_cases i <;> fin_cases j <;>
+      simp [Matrix.mul_apply, Fin.sum_univ_two, Matrix.transpose_apply] <;> norm_num
+  · rw [hU, hW]
+    intro i j
+    fin_cases i <;> fin_cases j <;>
+      simp [Matrix.mul_apply, Fin.sum_univ_three, Matrix.transpose_apply]
+    norm_num
+  · intro i hi
+    have h0 : @Svd.vget ℝ (fieldScalar Real.sqrt) dCV.W 0 = 0 := rfl
+    have h1 : @Svd.vget ℝ (fieldScalar Real.sqrt) dCV.W 1 = 15 := rfl
+    have hv : @Svd.vmaxOf ℝ (fieldScalar Real.sqrt) 2 (@Svd.vget ℝ (fieldScalar Real.sqrt) dCV.W) = 15 := by
+      show (([0, 1] : List Nat).foldl (fun v k => if v < @Svd.vget ℝ (fieldScalar Real.sqrt) dCV.W k
+        then @Svd.vget ℝ (fieldScalar Real.sqrt) dCV.W k else v) (0 : ℝ)) = 15
+      simp only [List.foldl_cons, List.foldl_nil, h0, h1]
+      norm_num
+    rw [hv]
+    have : i = 0 ∨ i = 1 := by omega
+    rcases this with rfl | rfl
+    · left; exact h0
+    · right; rw [h1]
+      have := Svd.wTol_le (K := ℝ)
+      rw [abs_of_pos (by norm_num : (0:ℝ) < 15)]
+      linarith
+
+theorem beqS (x y : ℝ) : Scalar.beq x y = decide (x = y) := rfl
+
+set_option maxRecDepth 8000 in
+/-- the post-decomposition model with the factors `dCV` at any tolerance `0 ≤ t ≤ 1/100` -/
+theorem dCV_answer (t : ℝ) (h0 : 0 ≤ t) (h1 : t ≤ 1/100) :
+    ∃ a, Svd.answerOf true t 3 2 (#[#[6, 8], #[3, 4], #[6, 8]] : DMat ℝ) #[1/2, 1/2, 3/2] (.subset [1]) dCV = .ok a
+      ∧ a.x = #[0, 1/8] ∧ a.defect = 1 := by
+  have e1 : t * 15 < 15 := by linarith
+  have e2 : ¬ t * 15 < 0 := by nlinarith
+  have e3 : ¬ (4/5 : ℝ) ≤ t := by linarith
+  unfold Svd.answerOf
+  norm_num [dCV, Svd.invW, Svd.vmaxOf, Svd.minSubsetX, Svd.defectOf, Svd.isNull, Svd.msLoop, Svd.msStep, Svd.refuse,
+    Svd.dotS, Svd.sumTo, Svd.absC, Svd.vget, Svd.mget, Svd.vmk, Svd.mmk, Svd.solveX, Array.ofFn_succ, sqS, beqS,
+    List.range, List.range.loop, e1, e2, e3, bind, Except.bind, pure, Except.pure]
+
+theorem answerOf_xErr {K : Type} [Scalar K] {fixed : Bool} {tol : K} {m n : Nat} {A : DMat K} {b : Array K}
+    {reg : Reg} {d : Svd.Dec K} {a : Answer K} (h : Svd.answerOf fixed tol m n A b reg d = .ok a) :
+    a.xErr = none := by
+  unfold Svd.answerOf at h
+  simp only [] at h
+  split at h
+  · cases h
+  · cases h; rfl
+
+/-- the svd solver's post-decomposition stage on the homogenised problem, with the factors `dCV` at
+    the model's tolerance: x = (0, 1/8), defect 1 -/
+theorem pCVdot_cert_answer : ∃ s, svdSolveCert true (Svd.wTol : ℝ) dCV pCVdot = .ok s ∧ s.x = #[0, 1/8]
+    ∧ s.defect = 1 ∧ s.xErr = none := by
+  obtain ⟨a, ha, hx, hd⟩ := dCV_answer (Svd.wTol : ℝ) Svd.wTol_nonneg Svd.wTol_le
+  have h : svdSolveCert true (Svd.wTol : ℝ) dCV pCVdot = .ok a := by
+    unfold svdSolveCert
+    rw [pCVdot_dense]
+    exact ha
+  exact ⟨a, h, hx, hd, answerOf_xErr ha⟩
+
+/-- the certificate hypothesis `hc` of `C01_adj_svd_cert` for `pCV`, GIVEN that the iteration returns
+    `dCV` on the homogenised system -/
+theorem pCV_hc (hdec : Svd.decompose 3 2 (#[#[6, 8], #[3, 4], #[6, 8]] : DMat ℝ) = .ok dCV)
+    (Ad : DMat ℝ) (bd : Array ℝ) (d : Svd.Dec ℝ) (hh : homogenise pCV = .ok (Ad, bd))
+    (hd : Svd.decompose pCV.m pCV.n (dotProblem pCV Ad bd (regOf pCV.reg)).dense = .ok d) :
+    Svd.SvdCert Real.sqrt (Svd.wTol : ℝ) pCV.m pCV.n (dotProblem pCV Ad bd (regOf pCV.reg)).dense d := by
+  rw [pCV_homogenise] at hh
+  obtain ⟨rfl, rfl⟩ := Prod.mk.inj (Except.ok.inj hh)
+  have e : (dotProblem pCV #[#[6, 8], #[3, 4], #[6, 8]] #[1/2, 1/2, 3/2] (regOf pCV.reg)).dense
+      = #[#[6, 8], #[3, 4], #[6, 8]] := pCVdot_dense
+  rw [e] at hd ⊢
+  have e' : Svd.decompose pCV.m pCV.n (#[#[6, 8], #[3, 4], #[6, 8]] : DMat ℝ) = .ok dCV := hdec
+  rw [e'] at hd
+  obtain rfl := Except.ok.inj hd
+  exact dCV_cert
+
+/-- `Adj` + svd answers `pCV` with x = (0, 1/8), defect 1, GIVEN that the iteration returns `dCV` -/
+theorem pCV_adj_svd (hdec : Svd.decompose 3 2 (#[#[6, 8], #[3, 4], #[6, 8]] : DMat ℝ) = .ok dCV) :
+    ∃ a, adjSolve .svd pCV = .ok a ∧ a.x = #[0, 1/8] ∧ a.defect = 1 := by
+  obtain ⟨s, hs, hx, hd, he⟩ := pCVdot_cert_answer
+  have hs' : solverOf .svd (dotProblem pCV #[#[6, 8], #[3, 4], #[6, 8]] #[1/2, 1/2, 3/2] (regOf pCV.reg))
+      = .ok s := by
+    show svdSolveWith true pCVdot = .ok s
+    unfold svdSolveWith
+    have e : Svd.decompose pCVdot.m pCVdot.n pCVdot.dense = .ok dCV := by
+      rw [pCVdot_dense]; exact hdec
+    rw [e]
+    exact hs
+  obtain ⟨a, ha, ax, -, ad, -⟩ := adjFull_ok (alg := .svd) pCV_homogenise hs' he
+  exact ⟨a, ha, by rw [ax, hx], by rw [ad, hd]⟩
+
+end svd
+
+/-! ### the Golub–Reinsch iteration on `A_dot = [[6,8],[3,4],[6,8]]`, evaluated by the kernel over ℚ -/
+
+/-- square root on the rationals the iteration takes roots of on this system (9/25, 1, 625/576, 25/16) -/
+def sqV (x : ℚ) : ℚ :=
+  if x = 9/25 then 3/5 else if x = 625/576 then 25/24 else if x = 25/16 then 5/4 else x
+
+/-- the model of `SVD::svd()` run over ℚ with a square root that is exact on every value it is applied
+    to during this run returns exactly the factors `dCV` -/
+theorem dCV_decompose_rat :
+    (@Svd.decompose ℚ (fieldScalar sqV) 3 2 #[#[6, 8], #[3, 4], #[6, 8]]).toOption.map
+        (fun d => (d.U, d.W, d.V))
+      = some (#[#[1/3, -2/3], #[-14/15, -1/3], #[2/15, -2/3]], #[0, 15], #[#[4/5, -3/5], #[-3/5, -4/5]]) := by
+  decide +kernel
 
 end Ex
 end Gama.Ls
